@@ -1152,3 +1152,39 @@ def text_transforms(F, R, pats):
     if not found:
         raise AnchorLost("bodies matching %s" % (pats,))
     return out
+
+
+SPAWN_SITES = {
+    # function -> (max number of spawn sites, what is detached there and why that is sound for the lifetime properties)
+    r"^jsonrpsee_core::server::rpc_module::RpcModule::<Context>::register_blocking_method::\{closure#0\}$": (1, "spawn_blocking: the handler; its JoinHandle is awaited by the call future"),
+    r"^jsonrpsee_core::server::rpc_module::RpcModule::<Context>::register_subscription::\{closure#0\}$": (1, "the subscription's close task (holds the sink / permit until the handler is done)"),
+    r"^jsonrpsee_server::transport::ws::background_task::\{closure#0\}$": (2, "the writer task (joined in graceful_shutdown) and the per-message task (holds the pending-call token)"),
+    r"^jsonrpsee_server::server::Server::<HttpMiddleware, RpcMiddleware>::start$": (2, "the accept loop"),
+    r"TowerServiceNoHttp<.*> as tower::Service<.*>>::call$": (1, "the WebSocket connection task (owns the ConnectionState)"),
+    r"^jsonrpsee_server::server::process_connection$": (1, "the connection future (owns the stop handle clone)"),
+}
+
+
+def vetted_spawns(ctx, rule, crates=("jsonrpsee_server", "jsonrpsee_core")):
+    """who may detach work: the server side spawns tasks in a closed set of places, each of which keeps the resource that
+    bounds its lifetime (connection permit, pending-call token, stop handle) or is joined. Work detached anywhere else
+    (a request handled on a spawned task while its permit is dropped by the caller; a connection task nobody joins)
+    escapes max_connections / graceful stop accounting."""
+    F, R = ctx.F, ctx.R
+    n = 0
+    per = {}
+    for c in F.all_calls(r"^tokio::(task::)?spawn$|^tokio::task::spawn_blocking$|^tokio::task::spawn_local$|Handle::(spawn|spawn_blocking)$|JoinSet::<.*>::spawn\w*$"):
+        b = c.body
+        if b.crate not in crates or is_test_body(b) or re.search(r"^<?jsonrpsee_core::client::", b.path):
+            continue
+        n += 1
+        site = None
+        for pat, (mx, why) in SPAWN_SITES.items():
+            if re.search(pat, b.path):
+                site = (pat, mx, why)
+        if site is None:
+            R.bad(rule, "spawn-site:%s" % fkey(b), "%s detaches work with %s: this is not one of the vetted spawn sites, whose tasks keep the connection permit / pending-call token / stop handle or are joined - work detached here is not covered by the connection limit and by graceful stop" % (short(b.path), short(c.name() or "")), where(c))
+            continue
+        per[site[0]] = per.get(site[0], 0) + 1
+        R.check(per[site[0]] <= site[1], rule, "spawn-site:%s#%d" % (fkey(b), per[site[0]]), "vetted spawn: %s" % site[2], "%s has more spawn sites (%d) than the %d vetted ones (%s)" % (short(b.path), per[site[0]], site[1], site[2]), where(c))
+    R.floor(rule, n, 8, "spawn sites on the server side")
